@@ -127,8 +127,8 @@ pub use buffer::Buffer;
 pub use node::{Input, Node};
 use petgraph::data::{DataMap, DataMapMut};
 use petgraph::visit::{
-    Data, DfsPostOrder, GraphBase, IntoNeighborsDirected, NodeCount, NodeIndexable, Reversed,
-    Visitable,
+    Data, DfsPostOrder, GraphBase, IntoNeighborsDirected, IntoNodeIdentifiers, NodeCount,
+    NodeIndexable, Reversed, Visitable,
 };
 use petgraph::{Incoming, Outgoing};
 
@@ -348,10 +348,9 @@ where
 /// A node is considered to be a source node if it has no incoming edges.
 pub fn sources<'a, G>(g: &'a G) -> impl 'a + Iterator<Item = G::NodeId>
 where
-    G: IntoNeighborsDirected + NodeCount + NodeIndexable,
+    G: IntoNeighborsDirected + IntoNodeIdentifiers + NodeCount + NodeIndexable,
 {
-    (0..g.node_count())
-        .map(move |ix| g.from_index(ix))
+    g.node_identifiers()
         .filter_map(move |id| match g.neighbors_directed(id, Incoming).next() {
             None => Some(id),
             _ => None,
@@ -363,10 +362,9 @@ where
 /// A node is considered to be a **sink** node if it has no outgoing edges.
 pub fn sinks<'a, G>(g: &'a G) -> impl 'a + Iterator<Item = G::NodeId>
 where
-    G: IntoNeighborsDirected + NodeCount + NodeIndexable,
+    G: IntoNeighborsDirected + IntoNodeIdentifiers + NodeCount + NodeIndexable,
 {
-    (0..g.node_count())
-        .map(move |ix| g.from_index(ix))
+    g.node_identifiers()
         .filter_map(move |id| match g.neighbors_directed(id, Outgoing).next() {
             None => Some(id),
             _ => None,
